@@ -209,10 +209,20 @@ def main(chk):
                 # every output face must be one of the input faces up to winding
                 if sorted(tuple(sorted(f)) for f in fl) != sorted(tuple(sorted(f)) for f in faces):
                     probs.append('face set changed')
+                # cached normal and area of every face agree with the *final* winding (normals point out of the cell)
+                nbad = []
+                for fk, fo in enumerate(o['faces']):
+                    cr = M.face_cross(X, fo['ids'])
+                    ar = S.R(fo['area'])
+                    cl = S.cmp('ge', ar, S.ZERO)
+                    for c_ in range(3):
+                        cl = S.band(cl, S.cmp('eq', S.mul(S.R(fo['normal'][c_]), S.mul(ar, S.const(2))), cr[c_]))
+                    stn, mdl = SV.prove(z2, pc, cl, tmo)
+                    if stn != 'proved': nbad.append((fk, stn, mdl))
                 stv, model = SV.prove(z2, pc, S.cmp('gt', M.signed_volume6(X, fl), S.ZERO), tmo)
                 stw, _ = SV.prove(z2, pc, S.FALSE, tmo)
                 stvol, _ = SV.prove(z2, pc, S.cmp('gt', S.R(o['volume']), S.ZERO), tmo)
-                out.append(('ok', probs, stv, model, stw, stvol, o.get('manifold'), fl, ''.join('T' if d.taken else 'F' for d in tr)))
+                out.append(('ok', probs, stv, model, stw, stvol, o.get('manifold'), fl, ''.join('T' if d.taken else 'F' for d in tr), nbad))
             return out, len(res), s2.functions_called, z2.queries, z2.solver_time
         outs = par.pmap(work, len(patterns))
         for pat, (out, npaths, fc, nq, st_) in zip(patterns, outs):
@@ -222,7 +232,18 @@ def main(chk):
             for o in out:
                 if o[0] == 'bad':
                     chk.fail_closed.append('%s winding %s: path failed: %s' % (name, pname, o[1])); continue
-                _, probs, stv, model, stw, stvol, man, fl, tr = o
+                _, probs, stv, model, stw, stvol, man, fl, tr, nbad = o
+                if not nbad:
+                    chk.ob('%s/orient %s/%s cached normals agree with the repaired winding' % (name, pname, tr), 'proved', True, 0)
+                for (fk, stn, mdl) in nbad:
+                    nmn = '%s/orient %s/%s face %d cached normal agrees with the repaired winding' % (name, pname, tr, fk)
+                    if stn == 'violated':
+                        rep = replay_normals(native, m, pat, mdl)
+                        chk.ob(nmn, 'violated' if rep['reproduced'] else 'unknown', True, 0, detail=rep)
+                        if rep['reproduced']:
+                            chk.violation('C12/normal-opposite-to-winding-after-initialisation/%s' % name, rep['what'], rep)
+                    else:
+                        chk.ob(nmn, 'unknown', True, 0)
                 if stw == 'violated': chk.witnesses += 1; sides += 1
                 if probs:
                     chk.ob('%s/orient %s/%s consistent' % (name, pname, tr), 'violated', True, 0, detail=probs)
@@ -299,6 +320,27 @@ def replay_orientation(native, m, pat, model):
         sv += A[0] * (B[1] * C[2] - B[2] * C[1]) - A[1] * (B[0] * C[2] - B[2] * C[0]) + A[2] * (B[0] * C[1] - B[1] * C[0])
     bad = bool(probs) or sv < 0
     return {'reproduced': bad, 'what': 'native result faces %r, signed volume*6=%g, problems %r' % (fl, sv, probs), 'coords': din, 'faces_in': faces}
+
+def replay_normals(native, m, pat, model):
+    if not model: return {'reproduced': False, 'what': 'no model'}
+    import math
+    faces = [f if not b else (f[0], f[2], f[1]) for f, b in zip(m['faces'], pat)]
+    din = model_coords(model, m)
+    q = native.call('h_c12_geom', din, M.iin_of(m, faces))
+    if q['status'] != 0: return {'reproduced': False, 'what': 'native status %r' % q['status']}
+    class R_: pass
+    r = R_(); r.dout = q['d']; r.iout = q['i']
+    o = parse_out(r, len(faces), True)
+    pts = [din[3 * i:3 * i + 3] for i in range(len(m['pts']))]
+    bad = []
+    for fk, f in enumerate(o['faces']):
+        A, B, C = [pts[v] for v in f['ids']]
+        u = [B[k] - A[k] for k in range(3)]; v = [C[k] - A[k] for k in range(3)]
+        n = [u[1] * v[2] - u[2] * v[1], u[2] * v[0] - u[0] * v[2], u[0] * v[1] - u[1] * v[0]]
+        nr = math.sqrt(sum(x * x for x in n))
+        if nr > 0 and sum(f['normal'][k] * n[k] / nr for k in range(3)) < 0.999:
+            bad.append('face %d %r: cached normal %r, winding normal %r' % (fk, f['ids'], f['normal'], [x / nr for x in n]))
+    return {'reproduced': bool(bad), 'what': '; '.join(bad[:2]) if bad else 'native normals agree with the winding', 'coords': din, 'faces_in': faces}
 
 def replay_geom(native, nm, model):
     """re-run natively at the model's coordinates and compare with a float oracle (relative tolerance 1e-9)"""
